@@ -201,6 +201,8 @@ def check_dump(res, path, exp, lines, faces, wraps, edges, extra_e, exprs, label
                       f"forallb (fun p => forallb (fun q => optZ_eqb (fst q) (snd q)) (combine (fst p) (snd p))) (combine cyc {cyc_l}) && "
                       f"setZ_eqb (map fst (kept_edges edges (map (fun c => map (fun o => match o with Some v => v | None => 0%Z end) c) cyc))) {C.zlist(kept)}",
                       replay, "tail vertices / orphan removal"))
+        # premise of theorem C14_cycle_steps_are_loop_edges on the faces of this dump: every loop is chained head to tail
+        exprs.append((f"let edges := {edl} in forallb (closed_loop edges) {loopz}%Z", replay, "face loops chained head to tail (premise of the cycle theorem)"))
 
 
 def run(res, tier, seed):
